@@ -178,8 +178,12 @@ where
     // Prepare the default SolOut (wrapping user callback if provided)
     let n_states = y0.len();
     // The output handler reports the first sample at x0 +/- first_step: give it the magnitude
-    // (the solvers ignore the sign as well) and never a target beyond xend.
-    let first_output = options.first_step.map(|h| h.abs().min((xend - x0).abs()));
+    // (the solvers ignore the sign as well).  A first step that spans the whole interval needs
+    // no special first output: the end point is reported anyway.
+    let first_output = options
+        .first_step
+        .map(|h| h.abs())
+        .filter(|h| *h < (xend - x0).abs());
     let mut default_solout = DefaultSolOut::new(f, options.t_eval.clone(), options.dense_output, first_output, x0, n_states);
 
     // Dispatch by method
